@@ -14,6 +14,7 @@ import ZapVerif.Model.TransLockedX
 import ZapVerif.Model.TransSweetenX
 import ZapVerif.Model.TransCaptureX
 import ZapVerif.Model.TransJsonEncX
+import ZapVerif.Model.TransConsoleX
 import ZapVerif.Model.Entry
 import ZapVerif.Gen.TransProbe
 /-! `zvdrv CTR`: the interpreter side of the translator's differential test.  An op names a generated table and a
@@ -225,6 +226,21 @@ def jsonEncPar : ZapVerif.TransJsonEnc.Par :=
     timeIsZero := fun t => match t with | .int 0 => true | _ => false,
     levelString := ZapVerif.Level.stringOf,
     callerString := fun _ => [102, 46, 103, 111, 58, 55] }   -- "f.go:7"
+
+def conCol (f : List Val) (txt : Bytes) (es : List Val) : List Val :=
+  match f with
+  | [.int 1] => es ++ [.bytes txt]
+  | _ => es
+
+def consolePar : ZapVerif.TransConsole.Par :=
+  { colTime := fun f _ => conCol f [84], colLevel := fun f _ => conCol f [76], colCaller := fun f _ => conCol f [67],
+    colName := fun f n es => match f, n with
+      | [.int 0], .bytes nm => es ++ [.bytes nm]
+      | [.int 2], _ => es ++ [.bytes [78]]
+      | _, _ => es,
+    text := fun v => match v with | .bytes t => t | _ => [],
+    timeIsZero := fun t => match t with | .int 0 => true | _ => false,
+    addFields := fun fs sp s => match fs with | .list ops => jeOps sp ops s | _ => s }
 end jsonenc
 
 def tables : List (String × (Env → Ctx)) := [
@@ -237,6 +253,7 @@ def tables : List (String × (Env → Ctx)) := [
   ("TransCE", fun _ => ZapVerif.TransCE.X),
   ("TransCEAdd", fun _ => ZapVerif.TransCEAdd.X),
   ("TransCapture", fun e => ZapVerif.TransCapture.X ⟨match e.get "#st" with | some (.list l) => l | _ => []⟩),
+  ("TransConsole", fun _ => ZapVerif.TransConsole.X consolePar),
   ("TransJsonEnc", fun _ => ZapVerif.TransJsonEnc.X jsonEncPar),
   ("TransSweeten", fun _ => ZapVerif.TransSweeten.X sweetenPar),
   ("TransLocked", fun _ => ZapVerif.TransLocked.X lockedPar),
